@@ -110,6 +110,22 @@ theorem frame_Open_other_arrays (env : Env) (a : CbcAead) (dst nonce ciphertext 
     rintro i ⟨r, hr, h1, _⟩
     exact hne ((mayWrite_within_dst_capacity dst _ r hr).1 ▸ h1).symm)
 
+/-- the contract assumed for the standard library's AEADs (GCM, ChaCha20-Poly1305), stated in the
+same form: `Seal/Open(dst, …)` touch at most the `dst` range that receives the output -/
+theorem frame_stdSeal (env : Env) (dst plaintext : Slice) (overhead : Nat) :
+    Frames (dstRange dst (plaintext.len + overhead)) (stdSeal env dst plaintext overhead) :=
+  frames_of_sat fun _ => sat_stdSeal env dst plaintext overhead (by
+    intro hc i h1 h2
+    exact ⟨(dst.arr, dst.off + dst.len, dst.off + dst.len + (plaintext.len + overhead)),
+      by simp [dstRange, hc], rfl, h1, h2⟩)
+
+theorem frame_stdOpen (env : Env) (dst ciphertext : Slice) (overhead : Nat) (e : String) :
+    Frames (dstRange dst (ciphertext.len - overhead)) (stdOpen env dst ciphertext overhead e) :=
+  frames_of_sat fun _ => sat_stdOpen env dst ciphertext overhead e (by
+    intro hc i h1 h2
+    exact ⟨(dst.arr, dst.off + dst.len, dst.off + dst.len + (ciphertext.len - overhead)),
+      by simp [dstRange, hc], rfl, h1, h2⟩)
+
 /-- with `dst = nil` (how the crypto package calls it) `Seal` writes nothing of the caller's -/
 theorem frame_Seal_nil_dst (env : Env) (a : CbcAead) (nonce plaintext additionalData : Slice) :
     ReadOnly (cbcSeal .fixed env a Slice.nil nonce plaintext additionalData) :=
